@@ -172,7 +172,28 @@ def run_job(args):
                         cs.append(t == (meta[0] if pick == 0 else meta[-1]))
                 if cs:
                     bounds.append(cs)
-            tries = [b for b in bounds] + [None] * int(opts.get("degraded_models", 4))
+            # models that put as many holes as possible on the usual value boundaries (powers of two and their neighbours)
+            special = []
+            for c in (0, 1, 0x7F, 0x80, 0xFF, 0x100, 0x7FFF, 0x8000, 0xFFFF, 0x10000, 0xFFFFFF, -1, -128, 127, 128):
+                cs = []
+                for name in cx.order:
+                    kind, t, meta = cx.decl[name]
+                    if kind in ("int", "char"):
+                        if kind == "char" and not 0 <= c <= 255:
+                            continue
+                        cs.append(t == (c & ((1 << t.size()) - 1)))
+                if not cs:
+                    continue
+                if e.check(*cs) == z3.sat:
+                    special.append(cs)
+                else:
+                    # not all at once: any hole that can take the value, one at a time (first two that can)
+                    took = 0
+                    for one in cs:
+                        if took < 2 and e.check(one) == z3.sat:
+                            special.append([one])
+                            took += 1
+            tries = [b for b in bounds] + special + [None] * int(opts.get("degraded_models", 4))
             for forced in tries:
                 if forced is not None:
                     if e.check(*forced) != z3.sat:
